@@ -62,6 +62,9 @@ class ImgTok:
     def __eq__(self, o): return self._bin("eq", o)
     def __ne__(self, o): return self._bin("ne", o)
     def __neg__(self): return ImgTok(_f("img_neg", Img, Img)(self.t))
+
+    def astype(self, dtype, **kw):
+        return self          # a change of element type does not change the values compared / combined here
     __hash__ = None
 
 
